@@ -28,6 +28,9 @@ pub enum Tamper {
     Roots(Vec<Option<u64>>, String),
     /// root buffer = one complete foreign root followed by bytes lo..hi of the message's own root (never a complete root)
     RootsFragment(usize, usize),
+    /// bits i and j (0..256, little-endian bit numbering of the 32 bytes) of public value k flipped; `wide`: also
+    /// through verify_rln_proof
+    Bits(usize, usize, usize, bool),
 }
 impl Tamper {
     fn kind(&self) -> String {
@@ -40,6 +43,7 @@ impl Tamper {
             Tamper::Tree(k) => format!("tree-{}", ["other-leaf-set", "member-leaf-deleted", "leaf-appended", "reset", "changed-and-changed-back"][*k as usize]),
             Tamper::Roots(_, how) => format!("root-set-{how}"),
             Tamper::RootsFragment(lo, hi) => format!("root-buffer-foreign-root-then-own-bytes-{lo}..{hi}"),
+            Tamper::Bits(k, i, j, _) => format!("{}-{}-flipped", ["root", "ext", "x", "y", "nullifier"][*k], if i == j { "one-bit" } else { "two-bits" }),
         }
     }
     fn to_json(&self) -> Value {
@@ -52,6 +56,7 @@ impl Tamper {
             Tamper::Tree(k) => json!({"t":"tree","k":k}),
             Tamper::Roots(r, how) => json!({"t":"roots","set":r,"how":how}),
             Tamper::RootsFragment(lo, hi) => json!({"t":"rootsfragment","lo":lo,"hi":hi}),
+            Tamper::Bits(k, i, j, w) => json!({"t":"bits","field":k,"i":i,"j":j,"wide":w}),
         }
     }
     fn from_json(v: &Value) -> Option<Tamper> {
@@ -65,6 +70,7 @@ impl Tamper {
             "tree" => Tamper::Tree(v["k"].as_u64()? as u8),
             "roots" => Tamper::Roots(v["set"].as_array()?.iter().map(|x| x.as_u64()).collect(), how),
             "rootsfragment" => Tamper::RootsFragment(v["lo"].as_u64()? as usize, v["hi"].as_u64()? as usize),
+            "bits" => Tamper::Bits(v["field"].as_u64()? as usize, v["i"].as_u64()? as usize, v["j"].as_u64()? as usize, v["wide"] == true),
             _ => return None,
         })
     }
@@ -89,7 +95,7 @@ pub fn base_requests(thorough: bool) -> Vec<Req> {
     v
 }
 
-fn tampers(r: &Req, msg: &[u8], thorough: bool) -> Vec<Tamper> {
+fn tampers(r: &Req, msg: &[u8], thorough: bool, base_idx: usize) -> Vec<Tamper> {
     let mut t = vec![Tamper::None];
     let vals: Vec<BigUint> = (0..5).map(|k| from_le(&msg[128 + 32 * k..160 + 32 * k])).collect();
     for k in 0..5 {
@@ -173,6 +179,38 @@ fn tampers(r: &Req, msg: &[u8], thorough: bool) -> Vec<Tamper> {
     }
     // the verifier's tree changes and changes back: the message is acceptable again
     t.push(Tamper::Tree(4));
+    // bit-level alterations of the public values. First base message: every single bit; every pair of bits that
+    // sit in two different 64-bit limbs at bit offsets at most 8 apart (quick) / every pair of bits (thorough).
+    // Other base messages (thorough): the limb-pair family.
+    if base_idx == 0 || thorough {
+        for k in 0..5usize {
+            if base_idx == 0 {
+                for i in 0..256usize {
+                    t.push(Tamper::Bits(k, i, i, true));
+                }
+            }
+            if base_idx == 0 && thorough {
+                for i in 0..256usize {
+                    for j in i + 1..256 {
+                        t.push(Tamper::Bits(k, i, j, true));
+                    }
+                }
+            } else {
+                for la in 0..4usize {
+                    for lb in la + 1..4 {
+                        for bi in 0..64i64 {
+                            for d in -8i64..=8 {
+                                let bj = bi + d;
+                                if (0..64).contains(&bj) {
+                                    t.push(Tamper::Bits(k, la * 64 + bi as usize, lb * 64 + bj as usize, false));
+                                }
+                            }
+                        }
+                    }
+                }
+            }
+        }
+    }
     t
 }
 
@@ -292,6 +330,18 @@ impl C02 {
                 // restore the tree for whoever comes next
                 let _ = setup_tree(rln, r);
             }
+            Tamper::Bits(k, i, j, wide) => {
+                let off = 128 + 32 * k;
+                m[off + i / 8] ^= 1 << (i % 8);
+                if i != j {
+                    m[off + j / 8] ^= 1 << (j % 8);
+                }
+                checks.push(("verify".into(), v_raw(rln, &m), false));
+                if *wide {
+                    let input = build(&m, &signal, &declared);
+                    checks.push(("verify_rln_proof".into(), v_tree(rln, &input), false));
+                }
+            }
             Tamper::RootsFragment(lo, hi) => {
                 let mut bytes = codec::fr(&foreign_root(1));
                 bytes.extend_from_slice(&own_root[*lo..*hi]);
@@ -366,7 +416,7 @@ impl Prop for C02 {
         let mut total = 0usize;
         let mut kinds = std::collections::BTreeSet::new();
         for (b, r) in bases.iter().enumerate() {
-            let ts = tampers(r, &msgs[b].0, !q);
+            let ts = tampers(r, &msgs[b].0, !q, b);
             total += ts.len();
             for t in &ts {
                 kinds.insert(t.kind());
@@ -381,6 +431,9 @@ impl Prop for C02 {
                 if setup_tree(rln, &bases[*b]).is_err() {
                     return out;
                 }
+                // every chunk starts by verifying the untouched message on this thread (a verifier that keeps state
+                // between calls has then seen the original before any altered copy)
+                out.extend(self.judge(rln, &bases[*b], &msgs[*b].1, &msgs[*b].0, &Tamper::None, *b));
                 for t in ts {
                     out.extend(self.judge(rln, &bases[*b], &msgs[*b].1, &msgs[*b].0, t, *b));
                 }
@@ -396,7 +449,7 @@ impl Prop for C02 {
         ev.set("tamper_kinds", json!(kinds));
         ev.set("exhaustive", json!(true));
         ev.set("deviation_bound", json!(1));
-        ev.set("rule", json!("for each base message (spread over index/secret/limit/signal/tree-context boundaries): every single alteration out of {each of the 5 public values -> v+1, v-1, 0, 1, p-1, each other field's value; signal -> first/last bit flipped, byte appended/dropped, emptied, replaced; declared length -> len-1, len+1 with extended buffer, 0; every single-bit flip of the 128 proof bytes; verifier tree changed after proving in 4 ways; 6 root sets}; each altered message goes to every verifier the alteration concerns; altered => never true, positive controls (untouched, own root in the set, old root after the tree changed, empty set) => true; distinct_nontrivial = alterations other than 'untouched'"));
+        ev.set("rule", json!("for each base message (spread over index/secret/limit/signal/tree-context boundaries): every single alteration out of {each of the 5 public values -> v+1, v-1, 0, 1, p-1, each other field's value; signal -> first/last bit flipped, byte appended/dropped, emptied, replaced; declared length -> len-1, len+1 with extended buffer, 0; every single-bit flip of the 128 proof bytes; for the first base message every single bit of every public value and every pair of bits in two different 64-bit limbs at offsets <= 8 apart (quick) / every pair of bits (thorough), thorough also the limb-pair family on every other base message; each chunk of alterations is preceded on its thread by a verification of the untouched message; verifier tree changed after proving in 4 ways; 6 root sets}; each altered message goes to every verifier the alteration concerns; altered => never true, positive controls (untouched, own root in the set, old root after the tree changed, empty set) => true; distinct_nontrivial = alterations other than 'untouched'"));
         ev.sample(json!({"base": bases[0].to_json(), "tamper": Tamper::Value(3, big(1), "one".into()).to_json()}));
         ev.sample(json!({"base": bases[1].to_json(), "tamper": Tamper::ProofBit(517).to_json()}));
         ev.sample(json!({"base": bases[2].to_json(), "tamper": Tamper::Tree(1).to_json()}));
